@@ -23,7 +23,97 @@ func (g *Gen) perm(ss []string) []string {
 	return r
 }
 
+// enumPaths: every way an enum column comes into being - New from strings, New from a constant, ReadCSV,
+// ReadJSON - at cardinalities around the limit of 255, with declared and derived value tables, with and
+// without a value outside the declared ones.
+func (g *Gen) enumPaths() {
+	for _, k := range []int{1, 2, 254, 255, 256, 257, 300} {
+		for rep := 0; rep < g.pick(2, 6); rep++ {
+			table := g.perm(enumNames(k))
+			n := k + g.rng.Intn(6)
+			cells := make([]string, n)
+			for i := range cells {
+				if i < k {
+					cells[i] = table[i]
+				} else {
+					cells[i] = table[g.rng.Intn(k)]
+				}
+			}
+			g.rng.Shuffle(n, func(i, j int) { cells[i], cells[j] = cells[j], cells[i] })
+			undecl := rep%2 == 1 // one cell outside the declared values
+			for _, declared := range []bool{false, true} {
+				if declared && k > 255 {
+					continue
+				}
+				cs := append([]string{}, cells...)
+				if declared && undecl {
+					cs[g.rng.Intn(n)] = "undeclared"
+				}
+				var decl []BS
+				if declared {
+					decl = bsList(table)
+				}
+				csv, js := "E,A\n", "["
+				for i, c := range cs {
+					csv += c + "," + itoa(i) + "\n"
+					if i > 0 {
+						js += ","
+					}
+					js += `{"E":"` + c + `","A":` + itoa(i) + `}`
+				}
+				js += "]"
+				g.begin("enum paths")
+				conf := &CsvConf{HasTypes: true, Types: []TypeDecl{{Name: toBS("E"), Typ: "enum"}}}
+				if declared {
+					conf.HasEnumVals, conf.EnumVals = true, []EnumDecl{{Name: toBS("E"), Vals: decl}}
+				}
+				fs := []int{g.do(Step{Op: "ReadCSV", Recv: -1, Doc: toBS(csv), Csv: conf})}
+				fs = append(fs, g.do(Step{Op: "ReadJSON", Recv: -1, Doc: toBS(js), HasOrder: true, ColOrder: bsList([]string{"E", "A"}),
+					HasEnums: true, Enums: []EnumDecl{{Name: toBS("E"), Vals: decl}}}))
+				strs := make([]*BS, n)
+				for i, c := range cs {
+					strs[i] = bsp(c)
+				}
+				fs = append(fs, g.do(Step{Op: "New", Recv: -1, HasOrder: true, ColOrder: bsList([]string{"E"}), HasEnums: true,
+					Enums: []EnumDecl{{Name: toBS("E"), Vals: decl}}, Data: []ColData{{Name: toBS("E"), Kind: "string", Strs: strs}}}))
+				for _, f := range fs {
+					if g.frame(f).Err != nil {
+						continue
+					}
+					cl := Clause{K: "leaf", Col: toBS("E"), CmpK: "str", Cmp: "isnull"}
+					g.do(Step{Op: "Filter", Recv: f, Clause: &cl})
+					cl2 := Clause{K: "leaf", Col: toBS("E"), CmpK: "str", Cmp: ">=", Arg: &Val{T: "string", S: toBS(table[k-1])}}
+					g.do(Step{Op: "Filter", Recv: f, Clause: &cl2})
+					g.do(Step{Op: "View", Recv: f, Dst: toBS("E")})
+				}
+				g.end()
+			}
+		}
+	}
+	// a constant column typed as enum: declared values containing it or not, derived, null constant
+	for _, count := range []int{0, 1, 4} {
+		for _, v := range []*BS{bsp("low"), bsp("nope"), bsp(""), nil} {
+			for _, decl := range [][]BS{nil, bsList([]string{"low", "mid", "high"}), bsList([]string{"high", "", "low"})} {
+				g.begin("enum const")
+				f := g.do(Step{Op: "New", Recv: -1, HasOrder: true, ColOrder: bsList([]string{"E", "A"}), HasEnums: true,
+					Enums: []EnumDecl{{Name: toBS("E"), Vals: decl}},
+					Data:  []ColData{{Name: toBS("E"), Kind: "cstring", Strs: []*BS{v}, Count: count}, {Name: toBS("A"), Kind: "cint", Ints: []int64{3}, Count: count}}})
+				if g.frame(f).Err == nil {
+					for _, c := range []string{"low", "nope", "mid"} {
+						cl := Clause{K: "leaf", Col: toBS("E"), CmpK: "str", Cmp: g.oneOf([]string{"=", "<", ">="}), Arg: &Val{T: "string", S: toBS(c)}}
+						g.do(Step{Op: "Filter", Recv: f, Clause: &cl})
+					}
+					g.do(Step{Op: "Sort", Recv: f, Orders: []Order{{Col: toBS("E")}}})
+					g.do(Step{Op: "View", Recv: f, Dst: toBS("E")})
+				}
+				g.end()
+			}
+		}
+	}
+}
+
 func genC17(g *Gen) {
+	g.enumPaths()
 	rid := toBS("rid")
 	cards := []int{1, 2, 3, 5, 63, 64, 65, 127, 128, 129, 191, 192, 193, 253, 254, 255, 256, 300}
 	ord := []string{"<", "<=", ">", ">=", "=", "!="}
